@@ -42,21 +42,24 @@ type pipeMismatch struct {
 }
 
 type pipeResult struct {
-	Run        int              `json:"run"`
-	Seed       int64            `json:"seed"`
-	Conns      int              `json:"conns"`
-	Sent       int              `json:"sent"`
-	Received   int              `json:"received"`
-	Errors     int              `json:"errors"` // error replies (allowed only with faults)
-	Mismatches []pipeMismatch   `json:"mismatches"`
-	Lost       []pipeMismatch   `json:"lost"`
-	Extra      []pipeMismatch   `json:"extra"`
-	Faults     []string         `json:"faults"`
-	Stats      map[string]int64 `json:"stats"`
-	StopOK     bool             `json:"stopOK"`
-	Redirects  int64            `json:"redirects"`
-	Events     int              `json:"events"`
-	Err        string           `json:"err,omitempty"`
+	Run            int              `json:"run"`
+	Seed           int64            `json:"seed"`
+	Conns          int              `json:"conns"`
+	Sent           int              `json:"sent"`
+	Received       int              `json:"received"`
+	Errors         int              `json:"errors"` // error replies (allowed only with faults)
+	Closed         int              `json:"closed"` // connections closed by the proxy before all replies arrived
+	Mismatches     []pipeMismatch   `json:"mismatches"`
+	Lost           []pipeMismatch   `json:"lost"`
+	Extra          []pipeMismatch   `json:"extra"`
+	Faults         []string         `json:"faults"`
+	Stats          map[string]int64 `json:"stats"`
+	StatsAfterStop map[string]int64 `json:"statsAfterStop,omitempty"`
+	StopOpen       bool             `json:"stopOpen"`
+	StopOK         bool             `json:"stopOK"`
+	Redirects      int64            `json:"redirects"`
+	Events         int              `json:"events"`
+	Err            string           `json:"err,omitempty"`
 }
 
 type pipeReq struct {
@@ -153,6 +156,7 @@ type pipeOpts struct {
 	faults, perturb      bool
 	gate, fragment       bool
 	connLimit            int
+	stopOpen             bool // stop the service while the client connections are still open
 }
 
 func runPipelineOnce(run int, o pipeOpts, traceW *cli.NDJSONWriter) (res pipeResult) {
@@ -208,6 +212,7 @@ func runPipelineOnce(run int, o pipeOpts, traceW *cli.NDJSONWriter) (res pipeRes
 	}
 	var rmu sync.Mutex
 	var wg sync.WaitGroup
+	var openConns []*sut.Client
 	stopFaults := make(chan struct{})
 	var faultWg sync.WaitGroup
 
@@ -299,7 +304,13 @@ func runPipelineOnce(run int, o pipeOpts, traceW *cli.NDJSONWriter) (res pipeRes
 				rmu.Unlock()
 				return
 			}
-			defer cn.Close()
+			if o.stopOpen {
+				rmu.Lock()
+				openConns = append(openConns, cn)
+				rmu.Unlock()
+			} else {
+				defer cn.Close()
+			}
 			plan := plans[c]
 			// writer
 			wdone := make(chan struct{})
@@ -332,11 +343,18 @@ func runPipelineOnce(run int, o pipeOpts, traceW *cli.NDJSONWriter) (res pipeRes
 			}()
 			// reader
 			got := 0
+			closed := false
 			for k, rq := range plan {
 				v, err := cn.Recv(6 * time.Second)
 				if err != nil {
 					rmu.Lock()
-					res.Lost = append(res.Lost, pipeMismatch{C: c, K: k + 1, Kind: rq.kind, Why: "no reply: " + err.Error()})
+					if strings.Contains(err.Error(), "timeout") {
+						res.Lost = append(res.Lost, pipeMismatch{C: c, K: k + 1, Kind: rq.kind, Why: "no reply: " + err.Error()})
+					} else {
+						// the proxy closed the connection (e.g. connection limit): nothing is owed on a closed connection
+						res.Closed++
+						closed = true
+					}
 					rmu.Unlock()
 					break
 				}
@@ -365,7 +383,9 @@ func runPipelineOnce(run int, o pipeOpts, traceW *cli.NDJSONWriter) (res pipeRes
 					emit(pipeEvent{Ev: "recv", C: c, Cls: "extra"})
 				}
 			}
-			emit(pipeEvent{Ev: "end", C: c})
+			if !closed {
+				emit(pipeEvent{Ev: "end", C: c})
+			}
 			rmu.Lock()
 			res.Sent += len(plan)
 			rmu.Unlock()
@@ -380,13 +400,21 @@ func runPipelineOnce(run int, o pipeOpts, traceW *cli.NDJSONWriter) (res pipeRes
 	dl := time.Now().Add(2 * time.Second)
 	for time.Now().Before(dl) {
 		st := sut.ServiceStats(px.Name)
-		if st["downstream.cx_active"] == 0 && st["downstream.rq_total"] == st["downstream.rq_success_total"]+st["downstream.rq_failure_total"] {
+		if (o.stopOpen || st["downstream.cx_active"] == 0) && st["downstream.rq_total"] == st["downstream.rq_success_total"]+st["downstream.rq_failure_total"] {
 			break
 		}
 		time.Sleep(5 * time.Millisecond)
 	}
 	res.Stats = sut.ServiceStats(px.Name)
+	res.StopOpen = o.stopOpen
 	res.StopOK = sut.StopWithin(px.P, 5*time.Second)
+	if o.stopOpen {
+		time.Sleep(20 * time.Millisecond)
+		res.StatsAfterStop = sut.ServiceStats(px.Name)
+		for _, cn := range openConns {
+			cn.Close()
+		}
+	}
 	return
 }
 
@@ -402,6 +430,7 @@ func pipeRun(args []string) error {
 	fragment := fs.Bool("fragment", false, "random fragmentation of request bytes")
 	out := fs.String("out", "", "result file (ndjson)")
 	traceFile := fs.String("trace", "", "boundary trace of all runs (ndjson; connection ids are run*1000+c)")
+	stopOpen := fs.Bool("stopopen", false, "every second run stops the service while the client connections are still open")
 	if err := fs.Parse(args); err != nil {
 		return err
 	}
@@ -423,7 +452,11 @@ func pipeRun(args []string) error {
 	}
 	for i := 1; i <= *runs; i++ {
 		o := pipeOpts{conns: 1 + rnd.Intn(*conns), reqs: *reqs, masters: *masters, seed: seed*100000 + int64(i),
-			faults: *faults, perturb: *perturb, gate: *gate && rnd.Intn(3) > 0, fragment: *fragment && rnd.Intn(2) == 0}
+			faults: *faults, perturb: *perturb, gate: *gate && rnd.Intn(3) > 0, fragment: *fragment && rnd.Intn(2) == 0,
+			stopOpen: *stopOpen && i%2 == 0}
+		if *stopOpen && i%3 == 0 {
+			o.connLimit = 1 + rnd.Intn(2) // connection-limit rejections are part of the history
+		}
 		res := runPipelineOnce(i, o, tw)
 		if err := w.Write(res); err != nil {
 			return err
